@@ -919,6 +919,24 @@ func checkWrapperStates(p *Program, r *Report, m *Model) {
 			a := args[nIn+k]
 			ok := false
 			for _, o := range origins(a) {
+				// element k of the vector a row-reading helper returns (`cellStates := sim.ReadStates(row, n)`)
+				if ld, isLd := o.(*ssa.UnOp); isLd && ld.Op == token.MUL {
+					if ia, isIA := ld.X.(*ssa.IndexAddr); isIA {
+						if idx, isC := constInt(ia.Index); isC && idx == int64(k) {
+							if rc, isCall := origin1OrSelf(ia.X).(*ssa.Call); isCall {
+								if row, okr := rowReaderArg(rc); okr {
+									root, _, _ := w.rootOfView(row)
+									if w.roleOfRoot(root) == "states" {
+										ok = true
+										continue
+									}
+								}
+							}
+						}
+					}
+					ok = false
+					break
+				}
 				c, isCall := o.(*ssa.Call)
 				if !isCall || callName(c.Common()) != "Get1" {
 					ok = false
@@ -940,6 +958,26 @@ func checkWrapperStates(p *Program, r *Report, m *Model) {
 			wrote := false
 			for _, rv := range resultAt(nOutRes + k) {
 				for _, ref := range refs(rv) {
+					// element k of the values handed to a row-writing helper (`sim.WriteStates(row, s0, s1, …)`)
+					if st, isSt := ref.(*ssa.Store); isSt && st.Val == rv {
+						if ia, isIA := st.Addr.(*ssa.IndexAddr); isIA {
+							if idx, isC := constInt(ia.Index); isC && idx == int64(k) {
+								for _, r2 := range refsDeep(vecBase(ia.X)) {
+									wc, isCall := r2.(*ssa.Call)
+									if !isCall {
+										continue
+									}
+									if row, okw := rowWriterArg(wc, vecBase(ia.X)); okw {
+										root, _, _ := w.rootOfView(row)
+										if w.roleOfRoot(root) == "states" {
+											wrote = true
+										}
+									}
+								}
+							}
+						}
+						continue
+					}
 					c, isCall := ref.(*ssa.Call)
 					if !isCall || callName(c.Common()) != "Set1" {
 						continue
@@ -1028,6 +1066,47 @@ func checkWrapperStates(p *Program, r *Report, m *Model) {
 				applied = true
 			}
 		}
+		// a module helper that applies the packed row to the array it is given (`sim.StoreStates(states, i, packed)`)
+		if c, ok := ref.(*ssa.Call); ok && !c.Common().IsInvoke() {
+			if h := c.Common().StaticCallee(); h != nil && InModule(h) && h.Blocks != nil && len(h.Params) == len(c.Common().Args) {
+				for _, hc := range callsIn(h) {
+					if callName(hc.Common()) != "ApplySlice" {
+						continue
+					}
+					dst, okd := origin1(recvOf(hc.Common())).(*ssa.Parameter)
+					ha := callArgs(hc.Common())
+					if !okd || len(ha) < 3 {
+						continue
+					}
+					src, oks := origin1(ha[2]).(*ssa.Parameter)
+					if !oks {
+						continue
+					}
+					di, si := -1, -1
+					for i, q := range h.Params {
+						if q == dst {
+							di = i
+						}
+						if q == src {
+							si = i
+						}
+					}
+					if di < 0 || si < 0 {
+						continue
+					}
+					isPack := false
+					for _, o := range origins(c.Common().Args[si]) {
+						if o == ssa.Value(pack) {
+							isPack = true
+						}
+					}
+					rt, _, _ := w.rootOfView(c.Common().Args[di])
+					if isPack && (w.roleOfRoot(c.Common().Args[di]) == "states" || w.roleOfRoot(rt) == "states") {
+						applied = true
+					}
+				}
+			}
+		}
 	}
 	if !applied {
 		bad = true
@@ -1074,10 +1153,16 @@ func (a linForm) String() string {
 	sort.Ints(ks)
 	s := fmt.Sprint(a.c)
 	for _, k := range ks {
+		if k == rowLenSym {
+			s += fmt.Sprintf("+%d·len(row)", a.coef[k])
+			continue
+		}
 		s += fmt.Sprintf("+%d·#%d", a.coef[k], k)
 	}
 	return s
 }
+
+const rowLenSym = 1 << 20
 
 func (a linForm) eq(b linForm) bool { return a.ok && b.ok && a.String() == b.String() }
 
@@ -1120,6 +1205,14 @@ func linEval(v ssa.Value, comp func(ssa.Value) (int, bool), depth int) linForm {
 		}
 	case *ssa.Convert:
 		return linEval(x.X, comp, depth+1)
+	case *ssa.Call:
+		// the length of the row itself: a symbol of its own (rows are padded to the widest cell, so an offset taken
+		// from the end of the row is not the offset the pack function writes at)
+		if nm := callName(x.Common()); (nm == "Len1" || nm == "Len") && recvOf(x.Common()) != nil {
+			if _, isPrm := origin1(recvOf(x.Common())).(*ssa.Parameter); isPrm {
+				return linForm{coef: map[int]int64{rowLenSym: 1}, ok: true}
+			}
+		}
 	case *ssa.UnOp:
 		if a, ok := x.X.(*ssa.Alloc); ok && x.Op == token.MUL && allocIsSimpleCell(a) {
 			vs := reachingStores(a, x)
@@ -1635,4 +1728,112 @@ func countingLoop(l *Loop) (*ssa.Phi, ssa.Value, ssa.Value, bool) {
 		return nil, nil, nil, false
 	}
 	return phi, lo, bo.Y, true
+}
+
+// rowReaderArg: call is `h(row, n)` of a module helper that returns a vector whose element s is row.Get1(s) for
+// the very s it is stored at (one store, index and position the same value); returns the row argument.
+func rowReaderArg(call *ssa.Call) (ssa.Value, bool) {
+	h := call.Common().StaticCallee()
+	if h == nil || !InModule(h) || h.Blocks == nil || call.Common().IsInvoke() || len(h.Params) != len(call.Common().Args) {
+		return nil, false
+	}
+	rets := returnsOf(h)
+	if len(rets) != 1 || len(rets[0].Results) != 1 {
+		return nil, false
+	}
+	out := vecBase(origin1OrSelf(rets[0].Results[0]))
+	var row *ssa.Parameter
+	n := 0
+	bad := false
+	eachInstr(h, func(_ *ssa.BasicBlock, _ int, ins ssa.Instruction) {
+		st, ok := ins.(*ssa.Store)
+		if !ok {
+			return
+		}
+		ia, ok := st.Addr.(*ssa.IndexAddr)
+		if !ok || vecBase(ia.X) != out {
+			return
+		}
+		n++
+		gc, ok := st.Val.(*ssa.Call)
+		if !ok || callName(gc.Common()) != "Get1" || callArgs(gc.Common())[0] != ia.Index {
+			bad = true
+			return
+		}
+		prm, ok := origin1(recvOf(gc.Common())).(*ssa.Parameter)
+		if !ok {
+			bad = true
+			return
+		}
+		row = prm
+	})
+	if bad || n != 1 || row == nil {
+		return nil, false
+	}
+	for i, q := range h.Params {
+		if q == row {
+			return call.Common().Args[i], true
+		}
+	}
+	return nil, false
+}
+
+// rowWriterArg: call is `h(row, vals…)` of a module helper whose only write is row.Set1(s, vals[s]) with the element's
+// own position s, and vals is the vector `vec` at this call; returns the row argument.
+func rowWriterArg(call *ssa.Call, vec ssa.Value) (ssa.Value, bool) {
+	h := call.Common().StaticCallee()
+	if h == nil || !InModule(h) || h.Blocks == nil || call.Common().IsInvoke() || len(h.Params) != len(call.Common().Args) {
+		return nil, false
+	}
+	vi := -1
+	for i, a := range call.Common().Args {
+		if vecBase(a) == vec {
+			vi = i
+		}
+	}
+	if vi < 0 {
+		return nil, false
+	}
+	var row *ssa.Parameter
+	n := 0
+	bad := false
+	for _, c := range callsIn(h) {
+		nm := callName(c.Common())
+		if nm != "Set1" && nm != "Set" {
+			continue
+		}
+		n++
+		a := callArgs(c.Common())
+		prm, ok := origin1(recvOf(c.Common())).(*ssa.Parameter)
+		if nm != "Set1" || !ok || len(a) != 2 {
+			bad = true
+			continue
+		}
+		// the value is vals[s] for the position s it is written at (a range loop: element and index of one Next, or
+		// an indexed read with the same index)
+		okVal := false
+		switch v := a[1].(type) {
+		case *ssa.UnOp:
+			if ia, isIA := v.X.(*ssa.IndexAddr); isIA && v.Op == token.MUL && origin1(ia.X) == ssa.Value(h.Params[vi]) && ia.Index == a[0] {
+				okVal = true
+			}
+		case *ssa.Extract:
+			if ix, isEx := a[0].(*ssa.Extract); isEx && ix.Tuple == v.Tuple {
+				okVal = true
+			}
+		}
+		if !okVal {
+			bad = true
+		}
+		row = prm
+	}
+	if bad || n != 1 || row == nil {
+		return nil, false
+	}
+	for i, q := range h.Params {
+		if q == row {
+			return call.Common().Args[i], true
+		}
+	}
+	return nil, false
 }
